@@ -1,5 +1,6 @@
 import UralModel.Model.NormalizeUrl
 import UralModel.Lemmas.UrlRoundTrip
+import UralModel.Lemmas.CanonRoundTrip
 /-!
 # Bridging: what the modelled parser returns on a string, in terms of its pieces
 
@@ -618,8 +619,23 @@ theorem normCleaned_str (puny : Str → Str) (o : Opts) (g : UrlG) (h : g.wf = t
   unfold normCleaned normG
   rw [e1, e2]
 
-/-- the class of the string-level theorems: a string of the grammar that reaches the parser as
-it is (`ir` = `infer_redirection`) -/
+/-- what the cleaning pass returns holds no control character -/
+theorem noCtl_resolvedClean (ir : Bool) (u : Str) : NoCtl (resolvedClean ir u) :=
+  Ural.CanonRoundTrip.noCtl_upperQuoted
+    (NoCtl.of_subset (Ural.CanonRoundTrip.strip_subset _) (Ural.CanonRoundTrip.noCtl_stripControl _))
+
+/-- **the class of the string-level theorems**: the strings `u` whose cleaned, resolved form
+(`infer_redirection` when `ir`, control characters removed, stripped, escapes upper-cased) is the
+string `g.str` of the grammar -/
+structure InClassOf (ir : Bool) (g : UrlG) (u : Str) : Prop where
+  wf : g.wf = true
+  reaches : resolvedClean ir u = g.str
+
+instance (ir : Bool) (g : UrlG) (u : Str) : Decidable (InClassOf ir g u) :=
+  decidable_of_iff (g.wf = true ∧ resolvedClean ir u = g.str)
+    ⟨fun ⟨a, b⟩ => ⟨a, b⟩, fun h => ⟨h.wf, h.reaches⟩⟩
+
+/-- the special case of a string that reaches the parser as it is: `u = g.str` itself -/
 structure InClass (ir : Bool) (g : UrlG) : Prop where
   wf : g.wf = true
   plain : Plain ir g.str
@@ -627,25 +643,38 @@ structure InClass (ir : Bool) (g : UrlG) : Prop where
 instance (ir : Bool) (g : UrlG) : Decidable (InClass ir g) :=
   decidable_of_iff (g.wf = true ∧ Plain ir g.str) ⟨fun ⟨a, b⟩ => ⟨a, b⟩, fun h => ⟨h.wf, h.plain⟩⟩
 
-theorem InClass.noUnsafe {ir : Bool} {g : UrlG} (h : InClass ir g) : NoUnsafe g.rest := by
+theorem InClass.of {ir : Bool} {g : UrlG} (h : InClass ir g) : InClassOf ir g g.str :=
+  ⟨h.wf, h.plain.resolved⟩
+
+theorem InClassOf.noUnsafe {ir : Bool} {g : UrlG} {u : Str} (h : InClassOf ir g u) :
+    NoUnsafe g.rest := by
   intro c hc
-  apply h.plain.cleaned.noUnsafe c
+  apply unsafe_of_ctl
+  apply noCtl_resolvedClean ir u c
+  rw [h.reaches]
   unfold UrlG.str
   exact List.mem_append_right _ hc
 
-/-- **from the pieces to the string**: two strings of the class whose pieces give the same
-result (the base one being parseable: its port text is a port) are normalized alike -/
+/-- **from the pieces to the strings** (relational form): if the cleaned, resolved forms of `u`
+and `u'` are the strings of `g` and `g'`, whose pieces give the same result (the base one being
+parseable: its port text is a port), then `u` and `u'` are normalized alike -/
+theorem string_of_grammar_rel (puny : Str → Str) (o : Opts) (ir : Bool) (g g' : UrlG) (u u' : Str)
+    (hg : InClassOf ir g u) (hg' : InClassOf ir g' u') (hport : portVal g.port ≠ none)
+    (h : normG puny o g' = normG puny o g) :
+    normalizeUrlString puny id o ir u' = normalizeUrlString puny id o ir u := by
+  rw [normalizeUrlString_cleaned, normalizeUrlString_cleaned, hg.reaches, hg'.reaches,
+    normCleaned_str puny o g hg.wf hg.noUnsafe, normCleaned_str puny o g' hg'.wf hg'.noUnsafe, h]
+  unfold normG UrlG.parsed
+  cases hp : portVal g.port with
+  | none => exact absurd hp hport
+  | some po => rfl
+
+/-- … and for the two strings of the grammar themselves -/
 theorem string_of_grammar (puny : Str → Str) (o : Opts) (ir : Bool) (g g' : UrlG)
     (hg : InClass ir g) (hg' : InClass ir g') (hport : portVal g.port ≠ none)
     (h : normG puny o g' = normG puny o g) :
-    normalizeUrlString puny id o ir g'.str = normalizeUrlString puny id o ir g.str := by
-  apply string_of_cleaned puny o ir _ _ hg.plain hg'.plain
-  · rw [normCleaned_str puny o g hg.wf hg.noUnsafe, normCleaned_str puny o g' hg'.wf hg'.noUnsafe, h]
-  · rw [normCleaned_str puny o g hg.wf hg.noUnsafe]
-    unfold normG UrlG.parsed
-    cases hp : portVal g.port with
-    | none => exact absurd hp hport
-    | some po => simp
+    normalizeUrlString puny id o ir g'.str = normalizeUrlString puny id o ir g.str :=
+  string_of_grammar_rel puny o ir g g' _ _ hg.of hg'.of hport h
 
 /-- a transformation that keeps prefix and port value: it is enough to compare the results on
 the two `Parsed` records -/
